@@ -83,6 +83,24 @@ func (c12) Gen(r *simrt.Rand, idx int, tier string) *Case {
 			}
 		}
 	}
+	if r.P(0.25) && len(j.Dirs) > 0 {
+		// a later redeclaration the other way round whose price is exactly the
+		// truncated reciprocal knut stored for the earlier one
+		src := j.Dirs[r.Intn(len(j.Dirs))]
+		rec := decimal.NewFromInt(1).Div(src.PriceDec()).Truncate(8)
+		if !rec.IsZero() {
+			d := src.Date + Day(r.Range(1, 3))
+			clash := false
+			for _, x := range j.Dirs {
+				if x.Date == d && ((x.Com == src.Com && x.Target == src.Target) || (x.Com == src.Target && x.Target == src.Com)) {
+					clash = true
+				}
+			}
+			if !clash {
+				j.Dirs = append(j.Dirs, Dir{Kind: "price", Date: d, Com: src.Target, Target: src.Com, PriceStr: rec.String(), Price: Q(rec.Mul(decimal.NewFromInt(QScale)).IntPart())})
+			}
+		}
+	}
 	if r.P(0.08) {
 		c.Sub = "zero-price"
 		j.Dirs = append(j.Dirs, Dir{Kind: "price", Date: day0 + 1, Com: cs[0], Price: 0, Target: cs[ncom-1]})
@@ -121,7 +139,7 @@ func (c12) Eval(c *Case) (*Violation, bool) {
 				if d.Date > qday {
 					break
 				}
-				if err := ps.Insert(reg.MustGet(d.Com), qToDec(d.Price), reg.MustGet(d.Target)); err != nil {
+				if err := ps.Insert(reg.MustGet(d.Com), d.PriceDec(), reg.MustGet(d.Target)); err != nil {
 					got.insertErr = err.Error()
 				}
 			}
@@ -146,7 +164,7 @@ func (c12) Eval(c *Case) (*Violation, bool) {
 		}
 		hasZero := false
 		for _, d := range decls {
-			if d.Price == 0 && d.Date <= qday {
+			if d.PriceDec().IsZero() && d.Date <= qday {
 				hasZero = true
 			}
 		}
